@@ -2,7 +2,7 @@ ENGINES = [
     {"name": "csym", "path": "vt/csym.py", "serves_properties": ["C01", "C02", "C03", "C10", "C13", "C14", "C17", "C18"],
      "kind_free_text": "symbolic interpreter of traits/ctraits.c over clang's JSON AST (regenerated from the current source on every run), "
                        "CPython API contracts in vt/capi.py, shared path condition with symx; memory-safety assertions on every path"},
-    {"name": "symx", "path": "vt/symx.py", "serves_properties": ["C01", "C03", "C04", "C05", "C06", "C07", "C08", "C09", "C11", "C13", "C15", "C17", "C19", "C20"],
+    {"name": "symx", "path": "vt/symx.py", "serves_properties": ["C01", "C03", "C04", "C05", "C06", "C07", "C08", "C09", "C11", "C12", "C13", "C15", "C17", "C19", "C20"],
      "kind_free_text": "symbolic execution of the real Python code on z3-backed proxies (DFS over decision prefixes by re-execution), "
                        "environment models for built-ins (vt/envmodels.py), concrete replay of every counterexample and one witness per path"},
 ]
@@ -224,4 +224,15 @@ CHECKS["C08"] = dict(
     note="Callback graphs over heap objects: the solver decides list indices and choice feasibility only; this is an exhaustive bounded "
          "enumeration and is labelled so. Two known findings (breaking a self-cycle; '*' on a second instance misses a class-cached "
          "wildcard name). Outside: expressions beyond the 10 listed, pools larger than 3 initial nodes, threads.")
+CHECKS["C12"] = dict(
+    text="Bounded exploration (through the symbolic explorer, list positions symbolic) of dependency-mutation histories (k=2 quick, 3 "
+         "thorough; 13 operations: nested value changes, list append/insert-duplicate/del/replace-one-by-two-of-the-same/remove/reverse, "
+         "Instance reassignment, dict set/del, scalar) interleaved with reads, on the original object, an unpickled copy and a clone, for "
+         "four observe-declared properties (cached over list items, over an Instance path, over dict items; uncached): every read equals "
+         "an independent recomputation, a cached getter runs at most once between relevant changes, a value-changing dependency change "
+         "delivers a notification carrying the new value.",
+    design_ref="DESIGN.md section 4 C12", technique="bounded exploration through the symbolic explorer with symbolic list indices; oracle = recomputation",
+    note="No arithmetic in the code under test: the solver decides list indices and choice feasibility only (exhaustive bounded enumeration, "
+         "labelled so). Legacy depends_on properties are outside the property's statement (they go stale with repeated items - observed, "
+         "not claimed).")
 NOT_APPLICABLE = {p: NOT_BUILT for p in ["C%02d" % i for i in range(1, 21)]}
